@@ -573,7 +573,7 @@ func c19K8s(p *chk.Prog, r *chk.Report) {
 	uc := need(x, p, ctrlPkg, "FRRK8sReconciler", "UpdateConfig")
 	if uc != nil {
 		g := uc.Graph()
-		st := g.Find(uc.IsAssignPat("RECV.desiredConfiguration", "D.DeepCopy()"))
+		st := g.Find(uc.IsAssignPat("RECV.desiredConfiguration", "V", chk.H("V", definedBy(g, "D.DeepCopy()"))))
 		ok := len(st) == 1
 		if ok {
 			w := g.MustPass(chk.Site{}, func(n ast.Node) bool { _, isSend := n.(*ast.SendStmt); return isSend }, false, func(n ast.Node) bool { return n == st[0].Top })
